@@ -1531,3 +1531,159 @@ Lemma resolve_entries_sound_ok units ix es ups : WF units ix ->
 Proof.
   intros W H. destruct (post_ok _ _ _ (resolve_entries_sound units ix W es []) H) as (new & -> & F). exact F.
 Qed.
+
+(* --- fractions: unit > quantity > system > all, later layers winning ------------ *)
+
+Lemma qmap_get_remove {V} q q' (m : list (pq * V)) :
+  qmap_get q (qmap_remove q' m) = if pq_eqb q q' then None else qmap_get q m.
+Proof.
+  induction m as [|[k v] r IH]; cbn [qmap_remove qmap_get]; [destruct (pq_eqb q q'); reflexivity|].
+  destruct (pq_eqb q' k) eqn:E.
+  - rewrite IH. apply pq_eqb_eq in E. subst k. destruct (pq_eqb q q'); reflexivity.
+  - cbn [qmap_get]. rewrite IH. destruct (pq_eqb q k) eqn:E2; [|reflexivity].
+    apply pq_eqb_eq in E2. subst k. rewrite pq_eqb_sym, E. reflexivity.
+Qed.
+
+Lemma qmap_get_insert {V} q q' (v : V) m :
+  qmap_get q (qmap_insert q' v m) = if pq_eqb q q' then Some v else qmap_get q m.
+Proof. unfold qmap_insert. cbn [qmap_get]. rewrite qmap_get_remove. destruct (pq_eqb q q'); reflexivity. Qed.
+
+Lemma nmap_get_remove {V} k k' (m : list (nat * V)) :
+  nmap_get k (nmap_remove k' m) = if Nat.eqb k k' then None else nmap_get k m.
+Proof.
+  induction m as [|[x v] r IH]; cbn [nmap_remove nmap_get]; [destruct (Nat.eqb k k'); reflexivity|].
+  destruct (Nat.eqb k' x) eqn:E.
+  - rewrite IH. apply Nat.eqb_eq in E. subst x. destruct (Nat.eqb k k'); reflexivity.
+  - cbn [nmap_get]. rewrite IH. destruct (Nat.eqb k x) eqn:E2; [|reflexivity].
+    apply Nat.eqb_eq in E2. subst x. rewrite Nat.eqb_sym, E. reflexivity.
+Qed.
+
+Lemma nmap_get_insert {V} k k' (v : V) m :
+  nmap_get k (nmap_insert k' v m) = if Nat.eqb k k' then Some v else nmap_get k m.
+Proof. unfold nmap_insert. cbn [nmap_get]. rewrite nmap_get_remove. destruct (Nat.eqb k k'); reflexivity. Qed.
+
+Lemma frac_quantities_get q : forall frs acc accw,
+  qmap_get q acc = option_map fw_get accw ->
+  qmap_get q (fold_left (fun acc cfg =>
+               fold_left (fun acc e => qmap_insert (fst e) (fw_get (snd e)) acc) (fr_quantity cfg) acc) frs acc) =
+  option_map fw_get (fold_left (fun acc fr =>
+               fold_left (fun acc e => if pq_eqb (fst e) q then Some (snd e) else acc) (fr_quantity fr) acc) frs accw).
+Proof.
+  induction frs as [|f r IH]; intros acc accw H; cbn [fold_left]; [exact H|].
+  apply IH. clear IH. generalize dependent accw. revert acc.
+  induction (fr_quantity f) as [|[k w] es IHe]; intros acc accw H; cbn [fold_left]; [exact H|].
+  apply IHe. cbn [fst snd]. rewrite qmap_get_insert, pq_eqb_sym. destruct (pq_eqb k q); [reflexivity | exact H].
+Qed.
+
+Lemma qmap_get_map q (qs : list (pq * frac_helper)) :
+  qmap_get q (map (fun e => (fst e, fh_define (snd e))) qs) = option_map fh_define (qmap_get q qs).
+Proof.
+  induction qs as [|[k v] r IH]; cbn [map qmap_get fst snd]; [reflexivity|].
+  destruct (pq_eqb q k); [reflexivity | exact IH].
+Qed.
+
+(* the value stored for a per-unit entry [w] of a unit [u] *)
+Definition unit_value (al me im : option frac_helper) (qs : list (pq * frac_helper)) (u : cunit) (w : frac_wrapper) : fcfg :=
+  fh_define (match reduce_merge (flatten3 (qmap_get (quantity u) qs)
+                                          (match usystem u with Some Metric => me | Some Imperial => im | None => None end)
+                                          al) with
+             | Some i => fh_merge (fw_get w) i
+             | None => fw_get w
+             end).
+
+Definition entry_step (ix : index) (t : nat) (acc : option frac_wrapper) (e : str * frac_wrapper) :=
+  match find (fst e) ix with
+  | Some i => if Nat.eqb i t then Some (snd e) else acc
+  | None => acc
+  end.
+
+Lemma frac_units_of_get al me im qs ix units t ub : nth_error units t = Some ub ->
+  forall es acc accw acc',
+  nmap_get t acc = option_map (unit_value al me im qs (ub_unit ub)) accw ->
+  frac_units_of es al me im qs ix units acc = Done (ROk acc') ->
+  nmap_get t acc' = option_map (unit_value al me im qs (ub_unit ub)) (fold_left (entry_step ix t) es accw).
+Proof.
+  intros Ht. induction es as [|[k w] r IH]; intros acc accw acc' H E; cbn [frac_units_of] in E.
+  - injection E as <-. exact H.
+  - apply bind_ok in E as (id & Hid & E). apply bind_ok in E as (u & Hu & E).
+    unfold lift, get_unit_id in Hid. destruct (find k ix) as [i|] eqn:Hf; [|discriminate]. injection Hid as ->.
+    unfold get_ub in Hu. destruct (nth_error units id) as [u0|] eqn:Hn; [|discriminate]. injection Hu as ->.
+    cbn [fold_left]. eapply IH; [|exact E].
+    unfold entry_step. cbn [fst snd]. rewrite Hf, nmap_get_insert, Nat.eqb_sym.
+    destruct (Nat.eqb id t) eqn:Eq; [|exact H].
+    apply Nat.eqb_eq in Eq. subst id. rewrite Ht in Hn. injection Hn as <-. reflexivity.
+Qed.
+
+Lemma frac_units_get al me im qs ix units t ub : nth_error units t = Some ub ->
+  forall frs acc accw acc',
+  nmap_get t acc = option_map (unit_value al me im qs (ub_unit ub)) accw ->
+  frac_units frs al me im qs ix units acc = Done (ROk acc') ->
+  nmap_get t acc' = option_map (unit_value al me im qs (ub_unit ub))
+                      (fold_left (fun a fr => fold_left (entry_step ix t) (fr_unit fr) a) frs accw).
+Proof.
+  intros Ht. induction frs as [|f r IH]; intros acc accw acc' H E; cbn [frac_units] in E.
+  - injection E as <-. exact H.
+  - apply bind_ok in E as (acc1 & E1 & E). cbn [fold_left]. eapply IH; [|exact E].
+    eapply frac_units_of_get; eassumption.
+Qed.
+
+Lemma merged_is_first_defined h (oq os oa : option frac_wrapper) w : h = fw_get w ->
+  match reduce_merge (flatten3 (option_map fw_get oq) (option_map fw_get os) (option_map fw_get oa)) with
+  | Some i => fh_merge h i
+  | None => h
+  end =
+  let l := [Some w; oq; os; oa] in
+  {| fh_enabled := first_defined fh_enabled l; fh_accuracy := first_defined fh_accuracy l;
+     fh_max_den := first_defined fh_max_den l; fh_max_whole := first_defined fh_max_whole l |}.
+Proof.
+  intros ->. destruct oq as [wq|], os as [ws|], oa as [wa|];
+    cbn [option_map flatten3 app reduce_merge fold_left first_defined];
+    unfold fh_merge, o_or; cbn [fh_enabled fh_accuracy fh_max_den fh_max_whole];
+    destruct (fw_get w) as [e1 a1 d1 m1]; cbn [fh_enabled fh_accuracy fh_max_den fh_max_whole];
+    try destruct (fw_get wq) as [e2 a2 d2 m2]; try destruct (fw_get ws) as [e3 a3 d3 m3];
+    try destruct (fw_get wa) as [e4 a4 d4 m4]; cbn [fh_enabled fh_accuracy fh_max_den fh_max_whole];
+    f_equal;
+    repeat match goal with |- context [match ?x with Some _ => _ | None => _ end] => is_var x; destruct x end;
+    reflexivity.
+Qed.
+
+Lemma build_fractions_layers files c : build cfg_new files = Done (ROk c) ->
+  forall t u, nth_error (c_units c) t = Some u ->
+    fractions_config (c_fractions c) (usystem u) (quantity u) t = resolved_fractions files c t u.
+Proof.
+  unfold build. intro H. apply bind_ok in H as (st & Hst & H). unfold lift in Hst. injection Hst as Hst.
+  apply add_files_facts in Hst as (_ & A2 & _ & _). cbn [bstate0 b_fractions app] in A2.
+  apply finish_facts in H as (units & Hu & _ & _ & Hf). rewrite A2 in Hf.
+  intros t u Ht. rewrite Hu in Ht. apply nth_error_map_inv in Ht as (ub & Hub & ->).
+  unfold build_fractions_config in Hf. apply bind_ok in Hf as (us & Hus & Hf). injection Hf as Hf.
+  set (layers := fractions_layers files) in *.
+  pose proof (frac_units_get _ _ _ _ _ _ t ub Hub layers [] None us eq_refl Hus) as Hget.
+  unfold fractions_config, resolved_fractions. fold layers. rewrite <- Hf.
+  cbn [cf_unit cf_quantity cf_metric cf_imperial cf_all].
+  rewrite Hget. unfold last_unit_entry, find_unit.
+  change (fun (acc : option frac_wrapper) (fr : fractions) => fold_left
+            (fun acc0 e => match find (fst e) (c_index c) with
+                           | Some i => if Nat.eqb i t then Some (snd e) else acc0 | None => acc0 end) (fr_unit fr) acc)
+    with (fun a fr => fold_left (entry_step (c_index c) t) (fr_unit fr) a).
+  destruct (fold_left (fun a fr => fold_left (entry_step (c_index c) t) (fr_unit fr) a) layers None) as [w|].
+  - cbn [option_map o_or o_get]. unfold unit_value. f_equal.
+    unfold frac_quantities, last_some.
+    rewrite (frac_quantities_get (quantity (ub_unit ub)) layers [] None eq_refl).
+    rewrite !(last_some_last_set _ _ None).
+    replace (match usystem (ub_unit ub) with
+             | Some Metric => option_map fw_get (last_set fr_metric layers None)
+             | Some Imperial => option_map fw_get (last_set fr_imperial layers None)
+             | None => None end)
+      with (option_map fw_get (system_setting layers (usystem (ub_unit ub))))
+      by (destruct (usystem (ub_unit ub)) as [[|]|]; reflexivity).
+    apply merged_is_first_defined. reflexivity.
+  - cbn [option_map o_or]. rewrite qmap_get_map. unfold frac_quantities, last_some.
+    rewrite (frac_quantities_get (quantity (ub_unit ub)) layers [] None eq_refl).
+    rewrite !(last_some_last_set _ _ None).
+    fold (last_quantity (quantity (ub_unit ub)) layers).
+    destruct (last_quantity (quantity (ub_unit ub)) layers) as [wq|]; [reflexivity|].
+    cbn [option_map o_or]. unfold system_setting.
+    destruct (usystem (ub_unit ub)) as [[|]|];
+      repeat match goal with |- context [last_set ?s layers None] => destruct (last_set s layers None) end;
+      reflexivity.
+Qed.
